@@ -4,6 +4,9 @@ definitions written here ARE the Python functions, re-read from the source text 
 
     pandora/refinement/vfit.py       Vfit.refinement_method        -> Pandora.Generated.Kernels.vfitMethod
     pandora/refinement/quadratic.py  Quadratic.refinement_method   -> Pandora.Generated.Kernels.quadraticMethod
+    pandora/refinement/refinement.py AbstractRefinement.loop_refinement: the test of the `if` that lets the method run
+                                     (an expression inside loops that are not in the subset)
+                                                                   -> Pandora.Generated.Kernels.refineGuard
 
 Signature (close to the Python one): `(cost0 cost1 cost2 : Val) (disp : Val) (measure : String) :
 PyExpr.PyRes (Val × Val × Int)` — the three cells of `cost`, the disparity, the measure string ->
@@ -13,10 +16,11 @@ PyExpr.PyRes (Val × Val × Int)` — the three cells of `cost`, the disparity, 
 from __future__ import annotations
 
 import ast
+from fractions import Fraction
 
 from . import gen_constants, pyexpr
 from .common import Unsupported, digest, find_class, find_method, parse, read_source, write_if_changed
-from .pyexpr import Param, VAL, STR
+from .pyexpr import Param, VAL, STR, INT, RAT
 
 NAME = "Kernels"
 
@@ -27,7 +31,13 @@ KERNELS = [
     ("pandora/refinement/vfit.py", "Vfit", "refinement_method", "vfitMethod", REFINE_PARAMS),
     ("pandora/refinement/quadratic.py", "Quadratic", "refinement_method", "quadraticMethod", REFINE_PARAMS),
 ]
-SRC = sorted({k[0] for k in KERNELS} | {gen_constants.SRC})
+LOOP = ("pandora/refinement/refinement.py", "AbstractRefinement", "loop_refinement")
+# what the names of the guard stand for: (source text, Lean parameter, type).  `dsp` is the sample index computed just
+# before, `n_disp` the length of the cost row, `disp[row, col]` the (numeric: `int(...)` was taken) disparity of the pixel,
+# `d_min` / `d_max` the ends of the global interval (`cv.coords["disp"]`: floats)
+GUARD_ATOMS = [("dsp", "dsp", INT), ("n_disp", "n_disp", INT), ("disp[row, col]", "dispRC", RAT),
+               ("d_min", "d_min", RAT), ("d_max", "d_max", RAT)]
+SRC = sorted({k[0] for k in KERNELS} | {gen_constants.SRC, LOOP[0]})
 
 
 def module_aliases(mod: ast.Module, rel: str):
@@ -75,6 +85,39 @@ def check_decorators(fn: ast.FunctionDef, rel: str):
         raise Unsupported(f"{rel}: {fn.name} is not a staticmethod (its first parameter would be `self`)")
 
 
+def loop_guard():
+    """the test of the one `if` of loop_refinement whose body calls `method(...)`"""
+    rel, cls, meth = LOOP
+    mod = parse(rel)
+    fn = find_method(find_class(mod, cls), meth)
+    found = []
+    for node in ast.walk(fn):
+        if isinstance(node, ast.If):
+            for st in node.body:
+                if isinstance(st, (ast.Assign, ast.Expr)) and isinstance(st.value, ast.Call) \
+                        and isinstance(st.value.func, ast.Name) and st.value.func.id == "method":
+                    found.append(node)
+    if len(found) != 1:
+        raise Unsupported(f"{rel}: expected one `if` whose body calls method(...), found {len(found)}")
+    node = found[0]
+    # what the atoms stand for is only right if they are bound as expected before the guard
+    body = ast.unparse(fn)
+    for needle in ("n_row, n_col, n_disp = cv.shape", "dsp = int((disp[row, col] - d_min) * subpixel)"):
+        if needle not in body:
+            raise Unsupported(f"{rel}: statement `{needle}` not found in {meth}")
+    for n in ast.walk(node.test):
+        if isinstance(n, ast.Name) and n.id not in {a[0] for a in GUARD_ATOMS} | {"disp", "row", "col"}:
+            raise Unsupported(f"{rel}: the guard of {meth} reads `{n.id}`, which has no declared meaning")
+    numpy_names, _ = module_aliases(mod, rel)
+    k = pyexpr.translate_expression(node.test, "refineGuard", GUARD_ATOMS, numpy_names=numpy_names,
+                                    source_text=read_source(rel), py_name=f"{meth}: guard of the method call")
+    if k.ret_types != ["bool"] or k.partial:
+        raise Unsupported(f"{rel}: the guard of {meth} is not a total boolean expression")
+    k.origin = f"{rel}: {cls}.{meth}, test of the `if` whose body calls `method(...)`"
+    k.always_partial = False
+    return k
+
+
 def kernels():
     """-> {lean name: pyexpr.Kernel} read from the source tree now"""
     consts = gen_constants.extract()
@@ -88,6 +131,8 @@ def kernels():
         out[lean_name] = pyexpr.translate_function(fn, lean_name, params, consts=table, numpy_names=numpy_names,
                                                    source_text=read_source(rel))
         out[lean_name].origin = f"{rel}: {cls}.{meth}"
+        out[lean_name].always_partial = True
+    out["refineGuard"] = loop_guard()
     return out
 
 
@@ -102,6 +147,50 @@ def python_comment(k) -> str:
     except Exception:  # pylint: disable=broad-except
         text = k.source
     return text.replace("-/", "- /").replace("/-", "/ -")
+
+
+# inputs of the generated `example`s: the translator's own evaluator (pyexpr.evaluate) computes the expected value,
+# Lean checks it by evaluation of the generated definition — this ties the two readings of the IR (Lean text /
+# Python evaluator) together at build time
+GOLDEN_TRIPLES = [(5, 1, 3), (1, 4, 3), (0, 0, 0), (2, 1, 1), (1, 1, 2), (None, 1, 2), (1, None, 2), (3, 1, None),
+                  (1, 2, 1), (7, 5, 9), (Fraction(1, 2), Fraction(1, 4), 3), (-3, -4, -4)]
+GOLDEN_GUARD = [(0, 3, 0, -1, 1), (1, 3, 0, -1, 1), (2, 3, 1, -1, 1), (-1, 3, -2, -1, 1), (0, 1, 0, 0, 0)]
+
+
+def lean_value(v, ty) -> str:
+    if ty == "val":
+        return "Val.nan" if v is None else f"Val.num {pyexpr.lean_lit(Fraction(v), 'rat')}"
+    if ty == "rat":
+        return pyexpr.lean_lit(Fraction(v), "rat")
+    if ty == "int":
+        return f"({int(v)} : Int)"
+    if ty == "bool":
+        return "true" if v else "false"
+    raise Unsupported(f"cannot render a {ty}")
+
+
+def golden_examples(k) -> list:
+    out = []
+    if k.lean_name == "refineGuard":
+        cases = [list(c) for c in GOLDEN_GUARD]
+    else:
+        cases = [[list(t), 0, m] for t in GOLDEN_TRIPLES for m in ("min", "max")]
+    partial = k.partial or k.always_partial
+    for args in cases:
+        res, vals = pyexpr.evaluate(k, *args)
+        flat = []
+        for a in args:
+            flat += list(a) if isinstance(a, list) else [a]
+        actual = " ".join(f"({lean_value(v, ty)})" if ty != "str" else pyexpr.lean_str(v)
+                          for v, (_, ty) in zip(flat, k.lean_params))
+        if res == "ok":
+            val = ", ".join(lean_value(v, ty) for v, ty in zip(vals, k.ret_types))
+            val = f"({val})" if len(vals) > 1 else val
+            rhs = f"PyExpr.PyRes.ok {val}" if partial else val
+        else:
+            rhs = "PyExpr.PyRes.zeroDivision"
+        out.append(f"example : {k.lean_name} {actual} = {rhs} := by decide +kernel")
+    return out
 
 
 def render(ks) -> str:
@@ -119,7 +208,10 @@ def render(ks) -> str:
         for note in sorted(set(k.notes)):
             lines.append(f"   note: {note.replace('-/', '- /')}")
         lines.append("-/")
-        lines.append(pyexpr.render_lean(k, always_partial=True))
+        lines.append(pyexpr.render_lean(k, always_partial=k.always_partial))
+        lines.append("-- what translator/pyexpr.py's own evaluator computes on a few inputs, checked here by evaluation")
+        lines += golden_examples(k)
+        lines.append("")
     lines.append("end Pandora.Generated.Kernels")
     return "\n".join(lines) + "\n"
 
